@@ -355,6 +355,11 @@ impl GrandState {
             ));
         }
         if option == EnterSubshellOption::Ignore {
+            if self.current_state.action != Action::Ignore {
+                // The signal was not ignored so far, so it is not one that was
+                // ignored on entry to the shell and can be trapped later.
+                self.current_state.origin = Origin::Subshell;
+            }
             self.current_state.action = Action::Ignore;
         }
 
